@@ -1,4 +1,6 @@
 import PexpectModel.Pxssh
+import PexpectModel.PxPrompt
+import PexpectModel.Drv.Ex
 import PexpectModel.Drv.Common
 /-! driver for the pxssh model:  PX <sync> <reset> <first> @ answers… @ reads… @ resetAnswers…   |   LV <a> <b> -/
 namespace Drv.PxD
@@ -43,6 +45,17 @@ def handle (toks : List String) : String :=
 def handleLev (toks : List String) : String :=
   match toks with
   | [a, b] => s!"{lev (decList a) (decList b)} {if similar (decList a) (decList b) then 1 else 0}"
+  | _ => "bad-op"
+
+/-- PP <n> @ ev… : n successive prompt() calls on the unique prompt -/
+def handlePrompt (toks : List String) : String :=
+  match toks with
+  | n :: "@" :: evToks =>
+    match n.toNat?, evToks.mapM Drv.ExD.parseEv with
+    | some n, some evs =>
+      let (fs, st, _) := PxP.promptSeq n { B := [], S := [] } evs
+      " | ".intercalate (fs.map (fun f => Drv.ExD.showFinal f { B := [], S := [] })) ++ s!" | p={encList st.B}"
+    | _, _ => "bad-op"
   | _ => "bad-op"
 
 end Drv.PxD
